@@ -1493,7 +1493,9 @@ def _same(a, b):
         return True
     if math.isinf(a) or math.isinf(b):
         return a == b
-    return abs(a - b) <= 1e-9 * max(abs(a), abs(b)) + 1e-300
+    # two equivalent spellings may associate the terms differently: a value that cancels to zero in one rendering
+    # is rounding noise (~1e-16 x the terms) in the other, hence the absolute floor
+    return abs(a - b) <= 1e-9 * max(abs(a), abs(b)) + 1e-9
 
 
 def _check_translate(case):
